@@ -110,14 +110,21 @@ def shrink(drv, cops, tree, sep, spacing, assign, rng, max_runs=120):
 
 
 def small_trees():
-    """All trees with <= 3 leaves over a 9-literal alphabet (thorough tier)."""
+    """All trees with <= 3 leaves over an 11-literal alphabet, and all double sign prefixes."""
     lits = [('lit', '0', ''), ('lit', '1', ''), ('lit', '2', ''), ('lit', '3', ''), ('lit', '7', ''), ('lit', '0.5', ''),
-            ('slit', '-', '2', ''), ('lit', '10', ''), ('lit', '1.25', '')]
+            ('slit', '-', '2', ''), ('lit', '10', ''), ('lit', '1.25', ''), ('slit', '-', '2', 'M'), ('lit', '0', 'G')]
     ops = '+-*/'
     for a in lits:
         yield a
         yield ('sign', '-', a)
         yield ('paren', a)
+        for s1 in '+-':
+            for s2 in '+-':
+                yield ('sign', s1, ('sign', s2, a))
+                yield ('paren', ('sign', s1, ('sign', s2, a)))
+                yield ('bin', '*', ('lit', '2', ''), ('sign', s1, ('sign', s2, a)))
+                yield ('bin', '-', ('lit', '2', ''), ('sign', s1, ('sign', s2, a)))
+        yield ('sign', '-', ('sign', '-', ('sign', '-', a)))
     for a, b in itertools.product(lits, repeat=2):
         for op in ops:
             yield ('bin', op, a, b)
@@ -140,9 +147,9 @@ def run_shard(ctx):
     res = ctx.res
     drv = ctx.driver(rw=True)
     opts = {}
-    exhaustive = None
-    if ctx.thorough():
-        exhaustive = itertools.islice(small_trees(), ctx.shard, None, ctx.nshards)
+    # every small tree is evaluated in both tiers (about 45 000 trees over the 16 shards)
+    exhaustive = itertools.islice(small_trees(), ctx.shard, None, ctx.nshards)
+    p_exh = 0.7 if ctx.thorough() else 0.45
     shrunk = 0
     while not ctx.out_of_time():
         sep = rng.choice(SEP_CONFIGS) if rng.random() < 0.5 else DEFAULT_SEP
@@ -152,10 +159,11 @@ def run_shard(ctx):
         meta = []
         for _ in range(60):
             tree = None
-            if exhaustive is not None and rng.random() < 0.7:
+            if exhaustive is not None and rng.random() < p_exh:
                 tree = next(exhaustive, None)
                 if tree is None:
                     exhaustive = None
+                    res.count('shards_that_finished_their_share_of_all_small_trees')
                 elif tree[0] == 'bin' and tree[2][0] == 'bin' and needs_paren_left(tree[2][1], tree[1]):
                     tree = ('bin', tree[1], ('paren', tree[2]), tree[3])
                 if tree is not None:
